@@ -57,6 +57,7 @@ type FuncContract struct {
 	Inst       []Clause // instantiation hints (integer shift terms)
 	Dispatch   map[string]Clause // interface type key -> concrete type: invokes on that interface are calls of the concrete method (obligation: the dynamic type is that type)
 	Check      []string // if set: the only safety obligation kinds generated for this function
+	Returns    []*CallSiteSpec // `at return #N assert …`: checked at the N-th return statement (source order)
 	Stores     []*CallSiteSpec // `at store Field#N assert …`: checked right after the N-th store (source order) to a field of that name
 	Src        string
 	Used       bool
@@ -317,6 +318,29 @@ func (c *Contracts) LoadFile(path, pkg string) error {
 			}
 		case "at":
 			// at call <callee>#<n> assert <expr>
+			if len(w) >= 5 && w[1] == "return" {
+				ord := 1
+				fmt.Sscanf(strings.TrimPrefix(w[2], "#"), "%d", &ord)
+				if w[3] != "assert" {
+					return fmt.Errorf("%s: only `assert` is allowed at returns", src)
+				}
+				cl, err := parseSpecExpr(rest(4), src)
+				if err != nil {
+					return err
+				}
+				var rs *CallSiteSpec
+				for _, x := range cur.Returns {
+					if x.Ordinal == ord {
+						rs = x
+					}
+				}
+				if rs == nil {
+					rs = &CallSiteSpec{Callee: "return", Ordinal: ord}
+					cur.Returns = append(cur.Returns, rs)
+				}
+				rs.Asserts = append(rs.Asserts, cl)
+				break
+			}
 			if len(w) >= 5 && w[1] == "store" {
 				field, ord := w[2], 1
 				if i := strings.LastIndex(field, "#"); i >= 0 {
